@@ -16,6 +16,12 @@ Section Z2F.
     case: n => [|n] //=.
     by rewrite Pnat.SuccNat2Pos.id_succ.
   Qed.
+  Lemma Z2F_of_nat_pred (n : nat) : Z2F F (BinInt.Z.sub (BinInt.Z.of_nat n) (BinNums.Zpos BinNums.xH)) = n%:R - 1.
+  Proof.
+    case: n => [|n]; first by rewrite /= sub0r.
+    rewrite Znat.Nat2Z.inj_succ BinInt.Z.sub_1_r BinInt.Z.pred_succ Z2F_of_nat.
+    by rewrite -addn1 natrD addrK.
+  Qed.
 End Z2F.
 
 Section Prog.
